@@ -525,11 +525,11 @@ class Interp:
             if isinstance(recv, Unknown) and "template_groups" in recv.meta and f.meta.get("attr") == "groups" and not kwargs and not args:
                 return TupleV(list(recv.meta["template_groups"][1:]))
             if isinstance(recv, Unknown) and f.meta.get("attr") == "group" and not kwargs and \
-                    all(isinstance(a, IntV) for a in args):
+                    all(isinstance(a, IntV) or (isinstance(a, Str) and a.is_concrete()) for a in args):
                 if len(args) > 1:
                     # m.group(a, b, ...): the tuple of the single groups
                     return TupleV([self.call_value(f, [a], {}, node, fr) for a in args])
-                g = self.match_group(recv, args[0].v if args else 0, node, fr)
+                g = self.match_group(recv, (args[0].v if isinstance(args[0], IntV) else args[0].text()) if args else 0, node, fr)
                 if g is not None:
                     return g
             if isinstance(recv, Unknown) and "pattern_text" in recv.meta and f.meta.get("attr") == "groups" and not args:
@@ -570,6 +570,19 @@ class Interp:
     def match_group(self, recv: "Unknown", k: int, node, fr) -> Optional[Value]:
         """group k of a modelled match object (`m.group(k)`, `m[k]`), or None when the model cannot say"""
         meta = recv.meta
+        if isinstance(k, str):
+            # a named group: its number in the pattern
+            pt0 = meta.get("pattern_text")
+            if not isinstance(pt0, str):
+                return None
+            from . import rx as _rx0
+            try:
+                named = {g.name: g.index for g in _rx0.groups(_rx0.parse(pt0), "cap") if g.name}
+            except AnalysisError:
+                return None
+            if k not in named:
+                self.raise_exc("IndexError", [Str.lit("no such group")], node, fr)
+            k = named[k]
         if "template_groups" in meta:
             tg = meta["template_groups"]
             if 0 <= k < len(tg):
